@@ -4,4 +4,5 @@ CONSTANT MaxCount = 5
 SPECIFICATION Spec
 INVARIANT PPreserved
 INVARIANT PCrop
+INVARIANT PCrop2
 CHECK_DEADLOCK FALSE
